@@ -420,9 +420,22 @@ def run(res, tier, seed, model_ok, search):
     for v in sub.violations:
         if v["signature"] in ("update-misattributed", "live-processing-crashed"):
             res.violations.append(v)
+    # the other exchange: Betdaq's integer customer reference, looked up over all markets by process_betdaq_current_orders; batches
+    # hold updates whose reference matches no local order before AND after the update of a known order
+    import betdaqdomain
+    sub = common.Result()
+    betdaqdomain.run(sub, tier, seed, False, search)
+    res.evaluations += sub.evaluations
+    res.distribution["betdaq-histories"] += sub.evaluations
+    for v in sub.violations:
+        if v["signature"] in ("update-misattributed", "betdaq-processing-crashed"):
+            res.violations.append(v)
 
 
 def replay(payload):
+    if (payload.get("replay") or {}).get("domain") == "betdaq":
+        import betdaqdomain
+        return betdaqdomain.replay(payload)
     if payload.get("signature") in ("update-misattributed", "live-processing-crashed"):
         from props import C11
         return C11.replay(payload)        # a live-domain history
